@@ -14,13 +14,23 @@
 //	{"mode":"emit_zero"}                   Emit on the zero value of every node type: ok / error / panic
 //	{"mode":"struct","files":[...]}        per file: tree from compile's parse vs tree from the generated
 //	                                       constructor, dumped generically, plus a node-by-node diff
+//	{"mode":"strlit","hex":[...]}          string round trip: the REAL emitter (scalar emitter of data.StringValue and the
+//	                                       reflective emitter's string-kind case, on every reflect-handled node type
+//	                                       with an exported string field) prints a Go expression; go/parser +
+//	                                       strconv.Unquote (what the Go compiler does with the literal) must give back
+//	                                       exactly the bytes that went in
 //	{"mode":"e2e","file":"..."}            interpreted (VM.LoadAndRun) vs compiled (RegisterCompiledFile +
 //	                                       RunCompiledFile, as the generated register.go/main.go do), fresh VMs
 package main
 
 import (
+	"encoding/hex"
 	"encoding/json"
 	"fmt"
+	"go/ast"
+	goparser "go/parser"
+	"go/token"
+	"strconv"
 	"os"
 	"os/exec"
 	"reflect"
@@ -57,6 +67,7 @@ type Req struct {
 	Mode  string   `json:"mode"`
 	Files []string `json:"files,omitempty"`
 	File  string   `json:"file,omitempty"`
+	Hex   []string `json:"hex,omitempty"`
 }
 
 func typeName(t reflect.Type) string {
@@ -127,6 +138,8 @@ type EmitRes struct {
 	Name    string `json:"name"`
 	Outcome string `json:"outcome"` // ok | error | panic
 	Detail  string `json:"detail,omitempty"`
+	// when Emit succeeded: is the text it printed a Go expression at all (go/parser)?
+	NotGo string `json:"not_go,omitempty"`
 }
 
 func emitZero() []EmitRes {
@@ -152,11 +165,14 @@ func emitZero() []EmitRes {
 				}
 			}
 			v := nv.Interface().(data.GetValue)
-			_, err := compile.VerifEmit(v, "zero.php", "")
+			text, err := compile.VerifEmit(v, "zero.php", "")
 			if err != nil {
 				r.Outcome, r.Detail = "error", err.Error()
 			} else {
 				r.Outcome = "ok"
+				if _, perr := goparser.ParseExpr(text); perr != nil {
+					r.NotGo = perr.Error() + " in: " + text
+				}
 			}
 		}()
 		res = append(res, r)
@@ -676,6 +692,132 @@ func spawn(side, file string) Run {
 	return Run{Out: text, Outcome: "exit", ExitFail: code != 0, ExitCode: code}
 }
 
+// ---- string literals: emitter output read back the way the Go compiler reads it
+type StrRes struct {
+	Hex     string   `json:"hex"`
+	Scalar  string   `json:"scalar"`            // ok | lost | unparseable | error
+	Reflect []string `json:"reflect,omitempty"` // Type.Field: <what> for every reflective field that did not round-trip
+	Emitted string   `json:"emitted,omitempty"` // the scalar emitter's text when it failed
+	Fields  int      `json:"fields"`            // reflective string fields exercised
+}
+
+// literalsOf parses a Go expression and returns every string literal in it, unquoted as the compiler would.
+func literalsOf(expr string) ([]string, error) {
+	e, err := goparser.ParseExpr(expr)
+	if err != nil {
+		return nil, err
+	}
+	var lits []string
+	ast.Inspect(e, func(n ast.Node) bool {
+		if bl, ok := n.(*ast.BasicLit); ok && bl.Kind == token.STRING {
+			if u, err := strconv.Unquote(bl.Value); err == nil {
+				lits = append(lits, u)
+			}
+		}
+		return true
+	})
+	return lits, nil
+}
+
+func roundTrip(v data.GetValue, s string) (string, string) {
+	text, err := compile.VerifEmit(v, "strlit.php", "")
+	if err != nil {
+		return "error", err.Error()
+	}
+	lits, perr := literalsOf(text)
+	if perr != nil {
+		return "unparseable", text
+	}
+	for _, l := range lits {
+		if l == s {
+			return "ok", ""
+		}
+	}
+	return "lost", text
+}
+
+type strField struct {
+	t reflect.Type
+	i int
+}
+
+var (
+	strFieldsOnce sync.Once
+	strFields     []strField
+)
+
+// every reflect-handled node type (pointer to struct implementing data.GetValue, no special handler,
+// no scalar emitter) whose zero value can be emitted, and its exported string-kind fields
+func reflectStringFields() []strField {
+	strFieldsOnce.Do(func() {
+		special, scalar := handlerSets()
+		for _, pt := range nodeTypes {
+			if special[pt] || scalar[pt] || !pt.Implements(tGetValue) {
+				continue
+			}
+			st := pt.Elem()
+			zero := reflect.New(st)
+			ok := func() (ok bool) {
+				defer func() {
+					if recover() != nil {
+						ok = false
+					}
+				}()
+				_, err := compile.VerifEmit(zero.Interface().(data.GetValue), "strlit.php", "")
+				return err == nil
+			}()
+			if !ok {
+				continue
+			}
+			for i := 0; i < st.NumField(); i++ {
+				f := st.Field(i)
+				if f.IsExported() && f.Type.Kind() == reflect.String && !strings.Contains(string(f.Tag), `pp:"-"`) {
+					strFields = append(strFields, strField{pt, i})
+				}
+			}
+		}
+	})
+	return strFields
+}
+
+func strlitMode(hexes []string) []StrRes {
+	fs := reflectStringFields()
+	var res []StrRes
+	for _, h := range hexes {
+		b, err := hex.DecodeString(h)
+		if err != nil {
+			res = append(res, StrRes{Hex: h, Scalar: "error"})
+			continue
+		}
+		s := string(b)
+		r := StrRes{Hex: h, Fields: len(fs)}
+		var em string
+		r.Scalar, em = roundTrip(data.NewStringValue(s), s)
+		if r.Scalar != "ok" {
+			r.Emitted = em
+		}
+		for _, sf := range fs {
+			func() {
+				defer func() {
+					if p := recover(); p != nil {
+						r.Reflect = append(r.Reflect, fmt.Sprintf("%s.%s: panic", typeName(sf.t), sf.t.Elem().Field(sf.i).Name))
+					}
+				}()
+				v := reflect.New(sf.t.Elem())
+				v.Elem().Field(sf.i).SetString(s)
+				if st, em := roundTrip(v.Interface().(data.GetValue), s); st != "ok" {
+					r.Reflect = append(r.Reflect, fmt.Sprintf("%s.%s: %s", typeName(sf.t), sf.t.Elem().Field(sf.i).Name, st))
+					if r.Emitted == "" {
+						r.Emitted = em
+					}
+				}
+			}()
+		}
+		res = append(res, r)
+	}
+	return res
+}
+
 func e2e(file string) E2E {
 	return E2E{File: file, Interpreted: spawn("interp", file), Compiled: spawn("compiled", file)}
 }
@@ -705,6 +847,8 @@ func main() {
 			out(map[string]any{"struct": structMode(rq.Files)})
 		case "e2e":
 			out(e2e(rq.File))
+		case "strlit":
+			out(map[string]any{"strlit": strlitMode(rq.Hex)})
 		default:
 			out(map[string]any{"err": "unknown mode"})
 		}
